@@ -62,6 +62,10 @@ CHECKS = {
  'C15': ('exploration', 'enumeration of every transaction count + Hypothesis witness/duplicate variants vs recursive reference merkle and weight formula',
          'Every n in 1..70 (1..300 thorough, powers of two +-1 to 1025) with generated witness subsets and duplicates is compared with a recursive '
          'textbook merkle definition over reference txids/wtxids; wrong declared roots must be refused; weights equal 3*stripped+full.', TRUST),
+ 'C16': ('exploration', 'Hypothesis-generated valid regtest blocks / transactions x exhaustive application of a ~95-entry mutation catalogue; oracle = reference rule predicates over reference encodings, plus exception-family contract',
+         'Every generated valid block (mined against the regtest limit, with and without witness commitment) receives every catalogue mutation at '
+         'each applicable site incl. limit boundaries (sigops 19,999/20,000/20,001, time +7200/+7201, coinbase script 1/2/100/101, size and weight '
+         'limits); CheckBlock / CheckTransaction must accept iff the reference predicate does and reject only with ValidationError, on all four chains.', TRUST),
  'C17': ('exploration', 'exhaustive boundary-grid enumeration + Hypothesis differential vs reference SetCompact/GetCompact and PoW predicate',
          'Differential test of the compact codec and CheckProofOfWork against a transcription of Core arith_uint256 over the complete '
          'exponent x boundary-mantissa grid, every bit length 0..256, boundary hashes on all four chains, plus random triples.',
